@@ -225,7 +225,7 @@ func ruleShardPledgeBooked(r *core.Run) {
 		}
 		for i, d := range sp {
 			n++
-			key := core.Key("T-couple", r.P.Name(f), fmt.Sprintf("Shard.Pledge assignment#%d <-> Pledge.TotalShardPledged", i+1))
+			key := core.Key("T-couple", r.KeyName(f), fmt.Sprintf("Shard.Pledge assignment#%d <-> Pledge.TotalShardPledged", i+1))
 			tot := findDelta(ds, "node/types.Pledge.TotalShardPledged")
 			ok := false
 			for _, t := range tot {
@@ -319,7 +319,7 @@ func ruleBookPair(r *core.Run, appendFn, releaseFn string, minSites int) {
 			n++
 			cnt++
 			B := st.c.Block()
-			key := core.Key("T-book-pair", r.P.Name(f), fmt.Sprintf("%s#%d", af.Name(), cnt))
+			key := core.Key("T-book-pair", r.KeyName(f), fmt.Sprintf("%s#%d", af.Name(), cnt))
 			pos := r.P.Pos(st.c.Pos())
 			released := relBlocks[B] && relIdx[B] < st.idx
 			if !released {
